@@ -101,6 +101,19 @@ fn judge(run: &mut Run, name: &str, class: &str, obs: &Obs, case: serde_json::Va
     run.nontrivial(fnv(name.as_bytes()) ^ obs.layout);
     let snap = obs.snap.as_ref().unwrap();
     let want_pis: Vec<Fe> = snap.public_inputs.iter().map(|(_, v)| *v).collect();
+    // the independent reference verifier M2 must accept the honest proof too
+    // (small domains): a prover and verifier that drifted TOGETHER away from
+    // the protocol still satisfy each other
+    if obs.direct.ran && obs.direct.prove_err.is_none() && obs.constraints <= 64 {
+        if let (Ok(vd), Ok(pd)) = (crate::m2::parse_verifier(&obs.direct.verifier_bytes), crate::m2::parse_proof(&obs.direct.proof)) {
+            run.traces_validated += 1;
+            if !crate::m2::verify(&vd, &pd, &obs.direct.pis, crate::m2::Version::V3) {
+                run.violation(&format!("{}/reference-verifier-rejects-honest-proof", class), &format!("{}: the real verifier accepts the honest proof but the reference verifier M2 rejects it", name), case.clone());
+            } else {
+                run.outcome("m2:accepts-honest-proof");
+            }
+        }
+    }
     // same keys, same instance, same RNG script: the three routes must produce the same proof
     if obs.direct.ran && obs.direct.prove_err.is_none() {
         for (rn, r) in [("compressed", &obs.compressed), ("serialized", &obs.serialized)] {
